@@ -182,7 +182,7 @@ func (c *Conn) AsyncRead() {
 					_ = c.closeWithError(err)
 					return
 				}
-				if n < len(*pbuf) {
+				if n < len(*pbuf) && (c.typ == ConnTypeTCP || c.typ == ConnTypeUnix) {
 					break
 				}
 			}
@@ -224,7 +224,7 @@ func (c *Conn) AsyncRead() {
 					_ = c.closeWithError(err)
 					return
 				}
-				if n < len(*pBuf) {
+				if n < len(*pBuf) && (c.typ == ConnTypeTCP || c.typ == ConnTypeUnix) {
 					break
 				}
 			}
